@@ -434,8 +434,10 @@ func (s *msess) opSignRaw() {
 			at := r.Intn(2*len(ins) + 1)
 			target := s.ws[r.Intn(len(s.ws))]
 			if r.Chance(60) && len(ins) > 1 {
-				// towards the owner of a later input, so that signing can go on with another keystore
-				target = ins[1+r.Intn(len(ins)-1)].w
+				// right before the look-ups of a later input, towards its owner: signing goes on with
+				// another keystore (two reads per input: the previous transaction, the outpoint)
+				j := 1 + r.Intn(len(ins)-1)
+				at, target = 2*j, ins[j].w
 			}
 			plan[at] = func() {
 				j := 0
@@ -490,7 +492,7 @@ func runManager(seed uint64, n int, out *bufio.Writer) error {
 	nw := 2 + r.Intn(2)
 	for k := 0; k < nw; k++ {
 		pass := randPass(r)
-		if k > 0 && r.Chance(35) {
+		if k > 0 && r.Chance(45) {
 			pass = s.ws[0].pass // wallets may share a passphrase
 		}
 		id, _, _, err := h.W.WM.CreateWallet(pass, "", 128)
